@@ -276,6 +276,9 @@ def check(facts, rep, tier, cfg):
     rep.rule("C07.R8", "the accept queue is a bounded queue whose capacity is the configured stream_buffer_size")
     check_capacity_role(facts, rep, crate, "C07.R8", "MuxStream", "Options.stream_buffer_size", "accept queue")
     check_option_setters(facts, rep, crate, "C07.R8", ['stream_buffer_size', 'max_flow_id_retries'])
+    rep.rule("C07.S7", "who-may: the functions that touch the critical resources behind this property are those of the reference tree (flow table, closed flag, per-stream / datagram / outbound queues, last-pong timestamp, client id maps, shared TLS identity)")
+    import whomay
+    whomay.check(facts, rep, "C07.S7", "C07")
 
 
 def rules_establish_ok(facts, b, tr, site):
